@@ -416,6 +416,40 @@ Definition new_upstream (is_ip : str -> bool) (addr dial_addr : str) (socks : bo
   | _ => None
   end.
 
+(** ** Opt.Bootstrap: a plain DNS server that resolves the host *)
+
+(** parseBootstrapAp accepts: an IP literal with an optional port *)
+Definition bootstrap_ok (is_ip : str -> bool) (s : str) : bool :=
+  match try_split_host_port s with
+  | None => false
+  | Some (h, _) => is_ip h
+  end.
+
+(** how a connection is opened once host and port are known *)
+Inductive dial_plan :=
+| DialLiteral (host : str) (port : N)     (* net.JoinHostPort(host, port): proxy, IP literal or system resolver *)
+| DialBootstrap (host : str) (port : N).  (* bootstrap.New(host, port): the address host resolves to, this port *)
+
+Definition dial_plan_of (is_ip : str -> bool) (t : target) (socks bootstrap_set : bool) : dial_plan :=
+  let lit_plan := DialLiteral (t_host t) (t_port t) in
+  let resolve := if is_ip (t_host t) then lit_plan
+                 else if bootstrap_set then DialBootstrap (t_host t) (t_port t)
+                 else lit_plan in
+  match t_transport t with
+  | TUdp => lit_plan
+  | TTcp | TTls | THttps => if socks then lit_plan else resolve   (* newTcpDialer *)
+  | TH3 | TQuic => resolve                                         (* newUdpAddrResolveFunc *)
+  end.
+
+Definition new_upstream_bs (is_ip : str -> bool) (addr dial_addr : str) (socks : bool) (bootstrap : str)
+  : option (target * dial_plan) :=
+  let bs_set := (0 <? length bootstrap)%nat in
+  if bs_set && negb (bootstrap_ok is_ip bootstrap) then None
+  else match new_upstream is_ip addr dial_addr socks with
+       | None => None
+       | Some t => Some (t, dial_plan_of is_ip t socks bs_set)
+       end.
+
 (** ** The grammar of the property's quantifier *)
 
 (** what the user wrote as an endpoint: [EName h p] = h or h:p (hostname or
